@@ -40,7 +40,7 @@ tail -15 "$OUT/demo_with_change.log" >> "$R"
 echo "rc=$rc_mut" >> "$R"
 echo "== existing suite with the change (demo excluded)" >> "$R"
 rm -f "$PKGDIR/zz_seed_${WHICH}_demo_test.go"
-(cd "$PKGDIR" && go test -vet=off -count=1 -timeout 25m . ) > "$OUT/suite_with_change.log" 2>&1; rc_suite=$?
+(cd "$PKGDIR" && go test -vet=off -count=1 -timeout ${SEED_SUITE_TIMEOUT:-25m} . ) > "$OUT/suite_with_change.log" 2>&1; rc_suite=$?
 tail -5 "$OUT/suite_with_change.log" >> "$R"
 echo "rc=$rc_suite" >> "$R"
 ok=1
